@@ -137,6 +137,18 @@ CHECKS = {
    note='Trusted: Lean kernel, models of Model/Serial.lean (tied by the harness), C16 sparse model. Strided 2-D sources beyond what the '
         'standard library exports (NumPy absent) are covered by the theorem but not exercised on the implementation.',
    technique='Lean 4 proof (round-trip laws, induction over export histories) + round-trip/differential runs on the implementation'),
+ 'C08': dict(
+   category='proof',
+   text='Lean theorems over the rationals, for every block dimension: scale(inverse) undoes scale on second-order-cone blocks (hyperbolic '
+        'Householder identity) and on the componentwise part; sinv undoes sprod on q blocks; ssqr is sprod with itself; triusc after trisc '
+        'restores the lower triangle of an s block; symm symmetrises and keeps the lower triangle; the s-block inner product is symmetric. '
+        'The model (transcribed from the Python reference kernels) is compared exactly, on dyadic data, with BOTH implementations -- the '
+        'compiled misc_solvers and the pure-Python fall-backs obtained from the current misc.py -- for sdot, symm, trisc, triusc, scale (all '
+        'flag combinations, multi-column) and sprod; inverse/adjoint/pack/unpack/isometry/max_step identities are run on both.',
+   design_ref='DESIGN.md 5 C08',
+   note='Trusted: Lean kernel, hand-written model Model/Kernels.lean, harness. pack/unpack (sqrt 2), scale2, sinv on s blocks, max_step and the '
+        's-block part of scale are checked through identities / exact comparison only, not proved.',
+   technique='Lean 4 proof (algebraic identities by induction over block length) + exact two-implementation correspondence'),
 }
 REASONS = {}
 def main():
